@@ -710,6 +710,44 @@ def install(eng):
             r = z3.If(i == k, eng.lift(vals[k], st), r)
         return SV(r)
 
+    import itertools
+
+    @reg(itertools.zip_longest, "itertools.zip_longest")
+    def m_zip_longest(eng, st, args, kw):
+        fill = kw.get("fillvalue")
+        its = []
+        for a_ in args:
+            it = to_iter(eng, st, a_)
+            if isinstance(it, list):
+                vals = it
+                it = SymIter(None, length=z3.IntVal(len(vals)), item=lambda e, s, i, vals=vals: _pick(e, s, vals, i))
+            its.append(it)
+        n = its[0].length
+        for it in its[1:]:
+            n = z3.If(it.length > n, it.length, n)
+        ft = eng.lift(fill, st)
+
+        def item(e, s, i):
+            out = []
+            for it in its:
+                v = it.item(e, s, i)
+                vt = e.lift(v, s)
+                out.append(SV(z3.If(i < it.length, vt, ft)))
+            return tuple(out)
+
+        res = SymIter(None, length=n, item=item, label="zip_longest")
+        res.parts = its
+        yield st, res
+
+    @reg(builtins.hasattr, "hasattr")
+    def m_hasattr(eng, st, args, kw):
+        obj, name = args
+        if not isinstance(obj, SV):
+            yield st, hasattr(obj, name)
+            return
+        for st1, pycls in eng.class_of(obj, st):
+            yield st1, hasattr(pycls, name)
+
     @reg(builtins.enumerate, "enumerate")
     def m_enumerate(eng, st, args, kw):
         it = to_iter(eng, st, args[0])
@@ -749,6 +787,23 @@ def install_wrappers(eng):
     eng.field_types[("PersistentMap", "_inner")] = lambda v: (z3.And(V.is_ref(v), V.cls_of(V.Val.a(v)) == imid), imap)
     eng.field_types[("PersistentSet", "_inner")] = lambda v: (z3.And(V.is_ref(v), V.cls_of(V.Val.a(v)) == imid), imap)
     eng.field_types[("PersistentVector", "_inner")] = lambda v: (z3.And(V.is_ref(v), V.cls_of(V.Val.a(v)) == pvid), pvec)
+
+    from basilisp.lang.list import PersistentList
+    from basilisp.lang.queue import PersistentQueue
+
+    plid, eplid, pdid = eng.class_id(C["PList"]), eng.class_id(C["EmptyPList"]), eng.class_id(C["PDeque"])
+    eng.class_id(PersistentList)
+    eng.class_id(PersistentQueue)
+    eng.field_types[("PersistentList", "_inner")] = lambda v: (z3.And(V.is_ref(v), z3.Or(V.cls_of(V.Val.a(v)) == plid, V.cls_of(V.Val.a(v)) == eplid)), C["PList"])
+    eng.field_types[("PersistentQueue", "_inner")] = lambda v: (z3.And(V.is_ref(v), V.cls_of(V.Val.a(v)) == pdid), C["PDeque"])
+
+    def plist_iter(e, s, args, k):
+        # ISeq.__iter__ (SeqIterator of the native extension) walks first/rest: for a PersistentList these are the
+        # items of the wrapped plist in order (trusted)
+        inner = e.load_field(s, args[0].t, "_inner", PersistentList)
+        yield s, SymIter(V.seq_of(V.Val.a(inner.t)))
+
+    eng.method_models[(PersistentList, "__iter__")] = Model("PersistentList.__iter__", plist_iter)
 
     def describe_wrapper(e, s, obj, term):
         """Concrete persistent wrappers (e.g. lmap.EMPTY, lset.EMPTY, vec.EMPTY) that flow into symbolic state:
